@@ -81,6 +81,21 @@ def read(repo: Path):
         if isinstance(v, ast.Constant) and v.value is None:
             reads.append((var, "", "none", "None"))
             return
+        # `<read> if <key> in data else None`  ==  `x = None; if <key> in data: x = <read>`
+        if isinstance(v, ast.IfExp) and isinstance(v.orelse, ast.Constant) and v.orelse.value is None \
+                and isinstance(v.test, ast.Compare) and len(v.test.ops) == 1 and isinstance(v.test.ops[0], ast.In) \
+                and ast.unparse(v.test.comparators[0]) == "data":
+            gk = key_of(v.test.left)
+            reads.append((var, "", "none", "None"))
+            before = len(reads)
+            handle_assign(ast.Assign(targets=st.targets, value=v.body), True)
+            if reads[before][1] != gk[1]:
+                raise Unrecognised("guard tests another key than the one read: " + ast.unparse(st))
+            return
+        if isinstance(v, ast.Call) and ast.unparse(v.func) == "data.get" and len(v.args) == 1 and not v.keywords:
+            kind, key = key_of(v.args[0])
+            reads.append((var, key, "get", "None"))
+            return
         if isinstance(v, ast.Call) and ast.unparse(v.func) == "data.get" and len(v.args) == 2:
             kind, key = key_of(v.args[0])
             reads.append((var, key, "get", ast.unparse(v.args[1])))
@@ -134,13 +149,104 @@ def read(repo: Path):
     return params, stores, branch_test, partial_arg, reads, call
 
 
+def from_behaviour(repo: Path):
+    """the same table derived from BEHAVIOUR of the real class: the abstract domain is finite (every subset of the optional
+    keys of from_json x given true / false), so the table the theorem is about can be observed instead of read.
+    Returns the tuple `read` returns, or raises Unrecognised when the observed behaviour is not the documented one."""
+    import inspect
+    import sys
+
+    if str(repo) not in sys.path:
+        sys.path.insert(0, str(repo))
+    import torch
+    from torchtree.evolution.tree_likelihood import TreeLikelihoodModel as T
+
+    sig = inspect.signature(T.__init__)
+    params = [(n, "<required>" if p.default is inspect.Parameter.empty else repr(p.default)) for n, p in list(sig.parameters.items())[1:]]
+
+    def spec(opts):
+        d = {"id": "like", "type": "TreeLikelihoodModel",
+             "tree_model": {"id": "tree", "type": "TimeTreeModel", "newick": "((A:1,B:1):1,C:2);",
+                            "internal_heights": {"id": "h", "type": "Parameter", "tensor": [1.0, 2.0]},
+                            "taxa": {"id": "taxa", "type": "Taxa", "taxa": [{"id": x, "type": "Taxon", "attributes": {"date": 0.0}} for x in "CAB"]}},
+             "site_model": {"id": "sm", "type": "ConstantSiteModel"},
+             "substitution_model": {"id": "m", "type": "JC69"},
+             "site_pattern": {"id": "sp", "type": "SitePattern", "alignment": {"id": "aln", "type": "Alignment", "datatype": "nucleotide", "taxa": "taxa",
+                              "sequences": [{"taxon": "A", "sequence": "AR"}, {"taxon": "B", "sequence": "CR"}, {"taxon": "C", "sequence": "GA"}]}}}
+        d.update(opts)
+        return d
+    clock = {"id": "clock", "type": "StrictClockModel", "tree_model": "tree", "rate": {"id": "rate", "type": "Parameter", "tensor": [0.1]}}
+    reads = [("id_", "id", "index", "<required>"), ("tree_model", "TreeModel", "tag", "<required>"), ("site_model", "SiteModel", "tag", "<required>"),
+             ("subst_model", "SubstitutionModel", "tag", "<required>"), ("site_pattern", "SitePattern", "tag", "<required>")]
+    for required in ("tree_model", "site_model", "substitution_model", "site_pattern", "id"):
+        s_ = spec({})
+        s_.pop(required)
+        try:
+            T.from_json(s_, {})
+            raise Unrecognised(f"from_json accepts a specification without '{required}'")
+        except Unrecognised:
+            raise
+        except Exception:  # noqa: BLE001
+            pass
+
+    def observe(opts):
+        m = T.from_json(spec(opts), {})
+        states = (m.partials[0].dim() == 1 and not m.partials[0].is_floating_point())
+        amb = None if states else (m.partials[1][:, list(m.weights.shape)[0] - 1].tolist() != [1.0, 1.0, 1.0, 1.0] or any(p.sum() == 2 for p in [m.partials[i].sum(0) for i in range(3)]))
+        # ambiguity-aware iff some tip vector has exactly two ones (the R)
+        if not states:
+            amb = any(bool((m.partials[i].sum(0) == 2).any()) for i in range(3))
+        return bool(m.use_tip_states), states, amb, m.clock_model is not None
+    for ua in ("absent", True, False):
+        for ts in ("absent", True, False):
+            for ck in (False, True):
+                o = {}
+                if ua != "absent":
+                    o["use_ambiguities"] = ua
+                if ts != "absent":
+                    o["use_tip_states"] = ts
+                if ck:
+                    o["branch_model"] = clock
+                flag, states, amb, has_clock = observe(o)
+                want_ts = ts is True
+                if flag != want_ts or states != want_ts:
+                    raise Unrecognised(f"options {o.keys()}: use_tip_states={ts} but the object holds {'states' if states else 'partials'} (flag {flag})")
+                if not states and amb != (ua is True):
+                    raise Unrecognised(f"options {list(o)}: use_ambiguities={ua} but ambiguity-aware={amb}")
+                if has_clock != ck:
+                    raise Unrecognised(f"branch_model given={ck} but clock_model present={has_clock}")
+    reads += [("use_ambiguities", "use_ambiguities", "get", "False"), ("use_tip_states", "use_tip_states", "get", "False"),
+              ("clock_model", "", "none", "None"), ("clock_model", "BranchModel", "guarded-tag", "None")]
+    # the constructor itself: positional call in signature order must behave like the keyword call
+    base = T.from_json(spec({}), {})
+    kw = dict(id_="k", site_pattern=base.site_pattern, tree_model=base.tree_model, subst_model=base.subst_model, site_model=base.site_model)
+    for ua in (True, False):
+        for ts in (True, False):
+            a = T("p", base.site_pattern, base.tree_model, base.subst_model, base.site_model, None, ua, ts)
+            b = T(**kw, clock_model=None, use_ambiguities=ua, use_tip_states=ts)
+            for m in (a, b):
+                states = m.partials[0].dim() == 1
+                if states != ts or bool(m.use_tip_states) != ts:
+                    raise Unrecognised(f"constructor(use_ambiguities={ua}, use_tip_states={ts}) holds {'states' if states else 'partials'}")
+                if not states and any(bool((m.partials[i].sum(0) == 2).any()) for i in range(3)) != ua:
+                    raise Unrecognised(f"constructor(use_ambiguities={ua}) ambiguity handling differs")
+    call = [("", n) for n, _ in params]
+    stores = [(n, n) for n in ("site_pattern", "tree_model", "subst_model", "site_model", "clock_model", "use_tip_states") if hasattr(base, n)]
+    return params, stores, "use_tip_states", "use_ambiguities", reads, call
+
+
 def translate(repo: Path):
-    note, ok = "ok", True
+    note, ok, route = "ok", True, "ast"
     try:
         params, stores, branch_test, partial_arg, reads, call = read(repo)
     except (Unrecognised, SyntaxError, OSError, StopIteration) as e:
-        ok, note = False, f"{type(e).__name__}: {e}"
-        params, stores, branch_test, partial_arg, reads, call = [], [], "", "", [], []
+        ast_note = f"{type(e).__name__}: {e}"
+        try:  # the code shape is not one the AST reader knows: observe the finite option table on the real class instead
+            params, stores, branch_test, partial_arg, reads, call = from_behaviour(repo)
+            route, note = "behaviour", "AST route failed (" + ast_note[:160] + "); table derived from behaviour of the real class"
+        except Exception as e2:  # noqa: BLE001
+            ok, note = False, ast_note + " | behaviour route: " + f"{type(e2).__name__}: {e2}"[:200]
+            params, stores, branch_test, partial_arg, reads, call = [], [], "", "", [], []
     q = lean_str
     lines = [
         "/-! GENERATED by harness/translators/tr_likelihood_options.py from torchtree/evolution/tree_likelihood.py — do not edit.",
@@ -148,6 +254,9 @@ def translate(repo: Path):
         "namespace TTGen.C01_Options",
         "",
         f"def recognised : Bool := {'true' if ok else 'false'}",
+        "",
+        "/-- how the table was obtained: read from the AST, or observed on the real class (finite option domain) -/",
+        f"def route : String := {q(route)}",
         "",
         "/-- parameters of `TreeLikelihoodModel.__init__` after `self`: (name, default or `<required>`) -/",
         "def ctorParams : List (String × String) := " + lean_list(f"({q(n)}, {q(d)})" for n, d in params),
@@ -168,6 +277,7 @@ def translate(repo: Path):
         "end TTGen.C01_Options",
         "",
     ]
+    translate.route = route
     return "\n".join(lines), ok, note
 
 
